@@ -30,7 +30,7 @@ OrderedOneAtATime ==
 \* environments form a forest rooted in the module environment
 HeapWellFormed == \A e \in 1..Len(heap) : heap[e].par < e
 \* the log only grows and calls counts the log entries per site
-LogCounts == \A k \in DOMAIN calls : calls[k] = Cardinality({i \in 1..Len(log) : log[i] = k})
+LogCounts == \A k \in DOMAIN calls : calls[k] = Cardinality({i \in 1..Len(log) : log[i][1] = k})
 
 \* ---- explore mode: export terminal outcomes
 ExportOutcome ==
@@ -43,11 +43,10 @@ Matches ==
   /\ log = P.obs.log
   /\ Outcome.out = P.obs.out
   /\ \A x \in Names : Outcome.globals[x] = P.obs.globals[x]
-Accept == Matches => TLCSet(1, TLCGet(1) \cup {pid})
-OutOfScope == (Finished /\ fin[1] = "oos") => TLCSet(2, TLCGet(2) \cup {pid})
-\* deepest log prefix matched per program, for diagnosis
-ASSUME TLCSet(1, {}) /\ TLCSet(2, {})
-Post == PrintT(<<"ACCEPTED", ToJson([ids |-> TLCGet(1), oos |-> TLCGet(2), n |-> Len(Programs)])>>)
+\* acceptance / out-of-scope are reported by printing (works with any number
+\* of TLC workers); the harness collects the ids
+Accept == Matches => PrintT(<<"ACC", ToJson(pid)>>)
+OutOfScope == (Finished /\ fin[1] = "oos") => PrintT(<<"OOS", ToJson(pid)>>)
 
 Bound == Len(log) <= P.maxlog
 =============================================================================
